@@ -347,7 +347,9 @@ def native_build(ob, init_c, workdir, asan=False):
     stub_objs = []
     if ob.replay == 'stub' and ob.stub_files:
         syms = set()
-        for i, sf in enumerate(ob.stub_files):
+        # native_stub_files: the subset of stubs that also exists natively (monitors); the others (uninterpreted
+        # kernels) are replaced by the real code in a native replay
+        for i, sf in enumerate(ob.get('native_stub_files') or ob.stub_files):
             o = os.path.join(workdir, 'stub%d.o' % i)
             r = sh(cc + hfl + ['-include', hdr, '-c', os.path.join(VERIF, sf), '-o', o], timeout=300)
             if r['rc'] != 0: return None, 'native stub compile failed: ' + r['err'][-1000:]
@@ -388,13 +390,24 @@ def native_replay(ob, init_c, workdir):
 # ---------------------------------------------------------------- running one obligation
 
 CPU_SEM = None   # threading.Semaphore limiting concurrent solver processes
+JOBS = 14
+import threading as _th
+_SLOT_LOCK = _th.Lock()
+class Slots:
+    """memory-aware admission: an obligation with a large memory cap occupies several of the job slots"""
+    def __init__(self, ob): self.k = max(1, min(JOBS, int(ob.mem_gb) // 5))
+    def __enter__(self):
+        with _SLOT_LOCK:
+            for _ in range(self.k): CPU_SEM.acquire()
+    def __exit__(self, *a):
+        for _ in range(self.k): CPU_SEM.release()
 
 def check_entry(ob, gb, entry, workdir, tier):
     """run cbmc on one entry point of a linked goto binary; returns a result dict (verdict etc.)"""
     res = dict(verdict=None, detail='', queries=0, solver_s=0.0, failed=[], witness=None, replay=None, entry=entry)
     eob = Ob(**dict(ob)); eob['entry'] = entry
     bes = [ob.backend] if isinstance(ob.backend, str) else list(ob.backend)
-    with CPU_SEM:
+    with Slots(ob):
         if len(bes) == 1:
             r = sh(cbmc_cmd(eob, gb, backend=bes[0]), timeout=ob.timeout, mem_gb=ob.mem_gb, env=shim_env(ob, bes[0]))
             be = bes[0]
@@ -420,7 +433,9 @@ def check_entry(ob, gb, entry, workdir, tier):
         return res
     res['properties'] = len(props)
     wit = [p for p in props if 'VP_WITNESS' in p[1]]
-    res['witness'] = bool(wit) and all(p[2] == 'FAILURE' for p in wit)
+    # several VP_WITNESS sites may exist in one harness file (alternative bodies); the entry point under test
+    # must reach at least one of them
+    res['witness'] = bool(wit) and any(p[2] == 'FAILURE' for p in wit)
     failed = [p for p in props if p[2] != 'SUCCESS' and 'VP_WITNESS' not in p[1]]
     # forming an out-of-object pointer without dereferencing it is C-level UB that no native run
     # can confirm: recorded as ub_notes, never as VIOLATION (a dereference has its own property)
@@ -446,7 +461,7 @@ def check_entry(ob, gb, entry, workdir, tier):
         return res
     # candidate violation: obtain the solver's input assignment and replay it
     pid, pdesc, _ = real[0]
-    with CPU_SEM:
+    with Slots(ob):
         r2 = sh(cbmc_cmd(eob, gb, ['--property', pid, '--trace', '--json-ui'], backend=be), timeout=max(ob.timeout, 300) * 2,
                 mem_gb=ob.mem_gb, env=shim_env(ob, be))
     res['queries'] += 1; res['solver_s'] += r2['wall']
@@ -623,8 +638,9 @@ def main():
     obs.sort(key=lambda o: -o.timeout)
     known = load_known()
     results = []
-    global CPU_SEM
+    global CPU_SEM, JOBS
     import threading
+    JOBS = a.jobs
     CPU_SEM = threading.Semaphore(a.jobs)
     with ThreadPoolExecutor(max_workers=max(a.jobs, 48)) as ex:
         futs = {ex.submit(run_ob, o, a.tier, a.keep): o for o in obs}
